@@ -47,3 +47,28 @@ open MdIt.PipelineH
 #print axioms doc_totalH_flat
 #print axioms parseDocH_cr
 #print axioms renderDocH_cr
+
+-- follow-up
+#check @MdIt.BlockH.parseBlocksH_content_len
+#check @doc_totalH_flat_src
+#check @doc_tree_wfH
+#check @doc_html_placesH
+#check @MdIt.InlineH.parseInlineH_shapes
+#check @doc_inline_leavesH
+#check @doc_tree_wf_fullH
+#check @doc_html_leavesH
+#check @docH_root_range
+
+#print axioms MdIt.BlockH.parseBlocksH_content_len
+#print axioms doc_totalH_flat_src
+#print axioms doc_tree_wfH
+#print axioms doc_html_placesH
+#print axioms MdIt.InlineH.parseInlineH_shapes
+#print axioms doc_inline_leavesH
+#print axioms doc_tree_wf_fullH
+#print axioms doc_html_leavesH
+#print axioms docH_root_range
+#check @docH_block_ranges
+#check @docH_html_block_ranges
+#print axioms docH_block_ranges
+#print axioms docH_html_block_ranges
